@@ -6,7 +6,7 @@ from collections import OrderedDict
 
 import torch
 
-from ..extract import c14_classes, c14_alloc
+from ..extract import c14_classes, c14_alloc, c14_shape
 
 F32, F64 = torch.float32, torch.float64
 DTN = {torch.float16: "f16", F32: "f32", F64: "f64", torch.int64: "i64", torch.bool: "bool", torch.int32: "i32"}
@@ -726,7 +726,12 @@ def run_case(chk, enc, R, case, opnames, lines, expect, overridden):
             chk.violation(f"{base_cell}/requires_grad_/raises", f"{cfgs}: requires_grad_(True) raised {type(e).__name__}: {e}", case.payload("requires_grad_"))
             rg_src = None
         chk.case(f"{case.recipe}|{case.b}|{cfgs}|requires_grad_|{case.seed}")
-        rg_histories(chk, enc, R, case, base_cell, cfgs, lines, expect)
+        # the history cells are keyed by (recipe, batch) only — requires_grad propagation does not depend on the source /
+        # default dtype — so the quick tier runs them once per (recipe, batch); the thorough tier for every dtype pair
+        rg_seen = chk.__dict__.setdefault("_c14_rg_seen", set())
+        if chk.tier == "thorough" or base_cell not in rg_seen:
+            rg_seen.add(base_cell)
+            rg_histories(chk, enc, R, case, base_cell, cfgs, lines, expect)
         other = None
         for opname in opnames:
             tgt = op_target(opname, eff_src)
@@ -963,6 +968,145 @@ def construct_lines(enc, R):
     return cases
 
 
+def _block_spec(cls, Bd, p):
+    """dense value of Block*(base, block_dim=p) computed from the dense base alone (square blocks)"""
+    Bm = Bd.movedim(p, -3)
+    nb, m = Bm.shape[-3], Bm.shape[-1]
+    if cls == "SumBatchLinearOperator":
+        return Bm.sum(-3)
+    out = torch.zeros(*Bm.shape[:-3], nb * m, nb * m, dtype=Bd.dtype)
+    for k in range(nb):
+        if cls == "BlockDiagLinearOperator":
+            out[..., k * m:(k + 1) * m, k * m:(k + 1) * m] = Bm[..., k, :, :]
+        else:
+            out[..., k::nb, k::nb] = Bm[..., k, :, :]
+    return out
+
+
+def shape_construct_cases(chk, enc, lines, expect):
+    """raw constructor calls whose arguments the constructor *reshapes*: the BatchRepeat unsqueeze loop and the Block*
+    block_dim move.  Per call: exact model correspondence of what is stored (`constructS`), constructor idempotence
+    `cls(*_args, **_kwargs)` on the implementation (spec) and in the model (`constructS2`), leaf identity (views share
+    storage; part of the encoding), and the dense value against a spec computed from the dense base alone."""
+    import linear_operator.operators as O
+    g = Gen(chk.rng.randrange(2 ** 30), F32)
+    D = O.DenseLinearOperator
+
+    def bases(b):
+        return OrderedDict([
+            ("Dense", lambda: D(g.T(*b, 2, 2))),
+            ("Diag", lambda: O.DiagLinearOperator(g.P(*b, 2))),
+            ("Tri(Dense)", lambda: O.TriangularLinearOperator(g.tri(*b, n=2))),
+            ("Chol(Tri)", lambda: O.CholLinearOperator(O.TriangularLinearOperator(g.tri(*b, n=2)))),
+            ("Sum(Dense,Diag)", lambda: O.SumLinearOperator(D(g.T(*b, 2, 2)), O.DiagLinearOperator(g.P(*b, 2)))),
+            ("Toeplitz", lambda: O.ToeplitzLinearOperator(g.T(*b, 2))),
+            ("Root", lambda: O.RootLinearOperator(g.T(*b, 2, 1))),
+            ("AddedDiag(Dense,Diag)", lambda: O.AddedDiagLinearOperator(D(g.T(*b, 2, 2)), O.DiagLinearOperator(g.P(*b, 2)))),
+            ("Interp(Dense)", lambda: O.InterpolatedLinearOperator(D(g.T(*b, 3, 3)), g.I(*b, 2, 2), g.P(*b, 2, 2).to(F32),
+                                                                    g.I(*b, 2, 2), g.P(*b, 2, 2).to(F32))),
+            ("Matmul(Dense,Dense)", lambda: O.MatmulLinearOperator(D(g.T(*b, 2, 2)), D(g.T(*b, 2, 2)))),
+            # classes with their own _unsqueeze_batch / _permute_batch: implementation side only (model: outside)
+            ("ConstantMul(Dense)", lambda: O.ConstantMulLinearOperator(D(g.T(*b, 2, 2)), g.P(*b))),
+            ("Identity", lambda: O.IdentityLinearOperator(2, batch_shape=torch.Size(b))),
+            ("Masked(Dense)", lambda: O.MaskedLinearOperator(D(g.T(*b, 3, 3)), torch.tensor([True, False, True]),
+                                                             torch.tensor([True, False, True]))),
+        ])
+    unsq_own = {"ConstantMul(Dense)", "Identity", "Masked(Dense)"}
+    perm_own = unsq_own | {"Matmul(Dense,Dense)"}
+
+    def one(cell, cls, pos, kw, spec_dense, modelled):
+        pl = {"cell": cell}
+        chk.case(cell, nontrivial=True, sample=False)
+        chk.count("shape-construct")
+        try:
+            with warnings.catch_warnings():
+                warnings.simplefilter("ignore")
+                made = getattr(O, cls)(*pos, **dict(kw))
+                again = type(made)(*made._args, **made._kwargs)
+                dense = made.to_dense()
+                dense2 = again.to_dense()
+        except Exception as e:  # noqa
+            chk.violation(cell + "/raises:" + type(e).__name__, f"{cls} constructor / rebuild raised {type(e).__name__}: {str(e)[:150]}", pl)
+            return
+        leaves = []
+        for a in list(pos) + [v for _, v in kw]:
+            if torch.is_tensor(a):
+                leaves.append(a)
+            elif enc.is_op(a):
+                leaves += enc.leaves(a)
+        ids = {}
+        for t in leaves:
+            ids.setdefault(t.untyped_storage().data_ptr(), len(ids))
+        pos_ids = [ids[t.untyped_storage().data_ptr()] for t in leaves]
+        ctr = [0]
+        ptxt = [enc.encode(a, ids, pos_ids, ctr) for a in pos]
+        ktxt = [f"{k} {enc.encode(v, ids, pos_ids, ctr)}" for k, v in kw]
+        tail = f"{cls} {len(pos)} " + " ".join(ptxt) + f" {len(kw)}" + ("" if not ktxt else " " + " ".join(ktxt))
+        e1, e2 = enc.encode(made, ids, pos_ids), enc.encode(again, ids, pos_ids)
+        # spec: the constructor is idempotent on what it stored (every copy / rebuild relies on it)
+        if e1 != e2:
+            chk.violation(cell + "/idempotent", f"{cls}(*_args, **_kwargs) differs from the operator: {first_diff(tuple(e1.split()), tuple(e2.split()))}", pl)
+        # spec: every stored tensor is a view of an argument tensor (no copy, no cast)
+        if " 999 1 " in e1 or any(tok == "other" for tok in e1.split()):
+            chk.violation(cell + "/leaf-identity", f"constructor copied or cast a tensor: {e1[:300]}", pl)
+        if tuple(dense.shape) != tuple(spec_dense.shape) or dense.dtype != spec_dense.dtype or not torch.equal(dense, spec_dense):
+            chk.violation(cell + "/dense", f"dense value of {cls}(...) differs from the spec computed from the dense base: "
+                          f"shape {tuple(dense.shape)} vs {tuple(spec_dense.shape)}", pl)
+        elif not torch.equal(dense2, spec_dense):
+            chk.violation(cell + "/dense-rebuilt", f"dense value of {cls}(*_args, **_kwargs) differs from the spec", pl)
+        if modelled:
+            for cmd, want in (("constructS", e1), ("constructS2", e2)):
+                line = (cmd + " " + tail).replace("  ", " ")
+                lines.append(line)
+                expect.append(("str", (want, cell + "/" + cmd, {"line": line, "cell": cell})))
+
+    # --- BatchRepeat: for _ in range(len(batch_repeat) + 2 - base.dim()): base = base.unsqueeze(0)
+    for b in [(), (2,), (1, 2)]:
+        for bname_, mk in bases(b).items():
+            for rep in [(2,), (2, 3), (1, 2, 2)]:
+                for how in ("kw", "pos"):
+                    if len(rep) < len(b) or (how == "pos" and len(rep) != 2):
+                        continue
+                    base = mk()
+                    r = torch.Size(rep)
+                    pos, kw = ([base], [("batch_repeat", r)]) if how == "kw" else ([base, r], [])
+                    cell = f"C14/constructS/BatchRepeat({bname_})[{bname(b)}|repeat={len(rep)}d|{how}]"
+                    spec = base.to_dense().repeat(*rep, 1, 1)
+                    one(cell, "BatchRepeatLinearOperator", pos, kw, spec, bname_ not in unsq_own)
+    # --- Block*: block_dim made negative; != -3 -> base._permute_batch(moves the block dimension last)
+    for b in [(3,), (2, 3), (2, 3, 2)]:
+        for bname_, mk in bases(b).items():
+            if bname_ in ("Interp(Dense)", "Masked(Dense)", "Root"):
+                continue   # rectangular / non-square blocks keep the spec simple: skipped
+            for cls in ("BlockDiagLinearOperator", "BlockInterleavedLinearOperator", "SumBatchLinearOperator"):
+                nd = len(b) + 2
+                if cls == "BlockDiagLinearOperator" and bname_ in ("Diag", "Identity"):
+                    continue   # BlockDiagLinearOperator.__new__ collapses a DiagLinearOperator base into a Diag (other class, documented NotImplementedError for block_dim != -3): not a constructor normalisation of this model
+                for bd, how in [(None, "default")] + [(x, h) for x in range(-nd, nd - 2) if x < -2 or x >= 0 for h in ("kw", "pos")]:
+                    if how == "pos" and (bd + nd) % 2 == 1:
+                        continue   # halve the positional variants
+                    base = mk()
+                    pos, kw = ([base], []) if bd is None else (([base], [("block_dim", bd)]) if how == "kw" else ([base, bd], []))
+                    eff = -3 if bd is None else bd
+                    p = eff + nd if eff < 0 else eff
+                    kind = "last" if p == nd - 3 else "move"
+                    cell = f"C14/constructS/{cls[:-14]}({bname_})[{bname(b)}|block_dim={'default' if bd is None else bd}|{how}|{kind}]"
+                    spec = _block_spec(cls, base.to_dense(), p)
+                    one(cell, cls, pos, kw, spec, not (kind == "move" and bname_ in perm_own))
+
+
+def shape_translator_crosscheck(chk, owners):
+    import linear_operator.operators as O
+    for c, u, p, e in owners:
+        cls = getattr(O, c, None)
+        if cls is None:
+            continue
+        for m, want in (("_unsqueeze_batch", u), ("_permute_batch", p), ("_expand_batch", e)):
+            got = getattr(cls, m).__qualname__.split(".")[0]
+            if got != want:
+                chk.proof_break("translator(C14Shape)", f"{c}.{m} resolves to {got} at run time, translator says {want}")
+
+
 # ----------------------------------------------------------------------------------------------- entry points
 def translator_crosscheck(chk, layouts, mros):
     import inspect
@@ -998,6 +1142,7 @@ def run(chk):
     torch.set_num_threads(2)
     layouts, issues, mros = c14_classes.generate()
     sites = c14_alloc.generate()
+    owners, _pinned = c14_shape.generate()
     chk.rule = ("every operator class and fixed nestings (recipes; thorough adds seed-random nestings of depth <= 3) x batch shapes "
                 "x source dtype {f32,f64} x torch default dtype {f32,f64} x {clone, detach, cpu, rebuild, rebuild with other tensors, "
                 "evaluate_kernel, double, float, to(dtype/kw/tensor/device+dtype), type}; integer-valued data; distinct = distinct "
@@ -1005,8 +1150,10 @@ def run(chk):
     chk.assumptions += ["torch tensor semantics of clone/detach/to (same-dtype `to` returns the same tensor)",
                         "dense value of the *original* operator is the reference (C01 covers its correctness)",
                         "CPU only: device moves are outside the check"]
-    chk.prove("LinOp.Properties.C14", ["LinOp/C14", "LinOp/Generated/C14Classes.lean", "LinOp/Generated/C14Alloc.lean"])
+    chk.prove("LinOp.Properties.C14", ["LinOp/C14", "LinOp/Generated/C14Classes.lean", "LinOp/Generated/C14Alloc.lean",
+                                       "LinOp/Generated/C14Shape.lean"])
     translator_crosscheck(chk, layouts, mros)
+    shape_translator_crosscheck(chk, owners)
     c14_alloc.crosscheck(chk, sites)
     enc = Enc(layouts)
     overridden = {L["name"]: L["overrides"] for L in layouts}
@@ -1063,6 +1210,12 @@ def run(chk):
         expect.append(("str", (want, "C14/construct", {"line": line})))
         chk.case(line, nontrivial=True, sample=False)
         chk.count("construct-lines")
+    if not only or "constructS" in only:
+        shape_construct_cases(chk, enc, lines, expect)
+    if not only or "constructB" in only:
+        import sys
+        from . import c14_bcast
+        c14_bcast.bcast_construct_cases(chk, enc, lines, expect, sys.modules[__name__], thorough)
     outs = chk.run_driver("C14", lines)
     if outs is not None:
         compare_model(chk, lines, expect, outs)
